@@ -22,8 +22,11 @@ theorem NewLine_sem (f t : ℝ) (D : ℤ) (h : f ≠ t) (hc : Cfg (slope f t D) 
   refine ⟨lineDoAt (slope f t D) f, ?_, ?_⟩
   · unfold NewLine
     simp only [h, if_false]
-    congr 1
-    unfold cum slope secs; congr 1; ring
+    -- count and slope up to commutative-ring identities
+    all_goals
+      refine congrArg₂ (Sched.doAt D) ?_ ?_
+      · congr 1 <;> (unfold cum slope secs; ring)
+      · congr 1 <;> (unfold slope secs; ring)
   · intro k hk0 hk
     have hk0' : (0:ℝ) ≤ (k:ℝ) := by exact_mod_cast hk0
     first
